@@ -817,7 +817,10 @@ def signature_of(session, F, q):
 
 def replay(ctx, rp):
     """re-run the program of a replay file on the current tree and print what the four views report"""
-    r = rp.get("replay") or (rp.get("no_longer_checks") or [{}])[0].get("data", [{}])[0]
+    if "names" in rp:                       # a findings/C10-*.json file
+        r = rp
+    else:
+        r = rp.get("replay") or ((rp.get("no_longer_checks") or [{}])[0].get("data") or [{}])[0]
     r = r.get("shrunk") or r
     import sqlframe.duckdb.functions as F
     from sqlframe.duckdb import DuckDBSession
